@@ -143,3 +143,45 @@ func H14Main() {
 	vndObserveStr("out", out.String())
 	vndObserveStr("warn", w)
 }
+
+// H15MainHistory: the command's output is a function of its arguments and files alone, also
+// for repeated runs in one process: a run without -alpha gives the same bytes before and
+// after a run with -alpha 0.001 (the samples' p-value, 0.029, lies between the two
+// thresholds), and each -alpha takes effect in its own run.
+var h15SavedThresholds = benchmath.DefaultThresholds // as initialised, before any run
+
+func H15MainHistory() {
+	// every case starts from the package's initial state (natively all replayed cases share a process)
+	benchmath.DefaultThresholds = h15SavedThresholds
+	a1, a2 := h14Pick("a1", "xy"), h14Pick("a2", "xy")
+	mk := func(a byte, base string) []byte {
+		var c []byte
+		c = append(c, "a: "...)
+		c = append(c, a, '\n')
+		for i := 1; i <= 4; i++ {
+			c = append(c, ("BenchmarkP 1 " + base + string([]byte{'0' + byte(i)}) + " ns/op\n")...)
+		}
+		return c
+	}
+	vndFile("f1.txt", mk(a1, ""))
+	vndFile("f2.txt", mk(a2, "1"))
+	run := func(extra ...string) string {
+		var out, errOut bytes.Buffer
+		args := append(append([]string{"-format", "csv", "-table", ".config"}, extra...), "f1.txt", "f2.txt")
+		if err := benchstat(&out, &errOut, args); err != nil {
+			return "ERROR " + err.Error()
+		}
+		return out.String() + "\n--\n" + errOut.String()
+	}
+	first := run()
+	strict := run("-alpha", "0.001")
+	again := run()
+	vndReach("h15:main-history")
+	vndAssert(again == first, "repeated-run-gives-the-same-output")
+	if a1 == a2 {
+		// one table comparing the two files
+		vndAssert(strings.Contains(first, "%,p=0.029") && !strings.Contains(first, "~,p=0.029"), "default-threshold-shows-the-difference")
+		vndAssert(strings.Contains(strict, "~,p=0.029"), "strict-threshold-hides-the-difference")
+	}
+	vndObserveStr("first", first)
+}
